@@ -21,12 +21,34 @@ type dummyTx struct {
 	id int
 }
 
-func sleepUntil(s *Sim, at int64) {
-	d := time.Duration(at) - s.W.Now()
-	if d > 0 {
-		time.Sleep(d)
-	}
+// opGates releases the ops of harness threads from driver events (totally ordered by time and
+// key) instead of time.Sleep: goroutines whose sleeps end at the same instant are woken by the Go
+// runtime in an order we do not control.
+type opGates struct {
+	ch [][]chan struct{}
 }
+
+func (s *Sim) newGates(tx *TXPlan) *opGates {
+	g := &opGates{}
+	for ti, ops := range tx.Threads {
+		var l []chan struct{}
+		prev := int64(0)
+		for oi, op := range ops {
+			c := make(chan struct{})
+			l = append(l, c)
+			at := op.AtNs
+			if at < prev {
+				at = prev
+			}
+			prev = at
+			s.W.At(time.Duration(at), fmt.Sprintf("txop:%02d:%03d", ti, oi), func() { close(c) })
+		}
+		g.ch = append(g.ch, l)
+	}
+	return g
+}
+
+func (g *opGates) wait(ti, oi int) { <-g.ch[ti][oi] }
 
 func (s *Sim) runTX(res *Result, horizon time.Duration) {
 	w := s.W
@@ -41,7 +63,6 @@ func (s *Sim) runTX(res *Result, horizon time.Duration) {
 		var t transactions.Transaction
 		var rt *transactions.RetryTransaction
 		ncb := 0
-		finally := func() { w.Log("tx", "finally", nil, "", 0) }
 		isDone := func() bool {
 			select {
 			case <-t.Done():
@@ -50,6 +71,15 @@ func (s *Sim) runTX(res *Result, horizon time.Duration) {
 				return false
 			}
 		}
+		// sample records Err() whenever Done is observed closed; it runs inline in goroutines the
+		// scheduler controls (an observer goroutine of its own would be scheduled by the Go runtime).
+		sample := func(where string) {
+			if t != nil && isDone() {
+				w.Log("tx", "sample", nil, errStr(t.Err()), 0)
+			}
+		}
+		finally := func() { w.Log("tx", "finally", nil, "", 0) }
+		gates := s.newGates(tx)
 		starter := func() {
 			if tx.Kind == "retry" {
 				rt = transactions.NewRetryTransaction(ctx, time.Duration(tx.DelayNs), tx.Count, func(data interface{}) error {
@@ -59,6 +89,7 @@ func (s *Sim) runTX(res *Result, horizon time.Duration) {
 						d = 1
 					}
 					w.Log("tx", "cb", nil, fmt.Sprint(data), d)
+					sample("cb")
 					if tx.CallbackFailAt > 0 && ncb == tx.CallbackFailAt {
 						return errTXCallback
 					}
@@ -69,16 +100,11 @@ func (s *Sim) runTX(res *Result, horizon time.Duration) {
 				t = transactions.NewTimedTransaction(ctx, time.Duration(tx.DelayNs), finally)
 			}
 			w.Log("tx", "created", nil, tx.Kind, 0)
-			// observer
-			go func() {
-				<-t.Done()
-				w.Log("tx", "done", nil, errStr(t.Err()), 0)
-			}()
 			for ti, ops := range tx.Threads {
 				ti, ops := ti, ops
 				go func() {
 					for oi, op := range ops {
-						sleepUntil(s, op.AtNs)
+						gates.wait(ti, oi)
 						ch := fmt.Sprintf("txt:%d", ti)
 						w.Log(ch, "invoke", nil, op.Op, int64(oi))
 						switch op.Op {
@@ -92,11 +118,12 @@ func (s *Sim) runTX(res *Result, horizon time.Duration) {
 							}
 						}
 						w.Log(ch, "return", nil, op.Op, int64(oi))
+						sample("op")
 					}
 				}()
 			}
 		}
-		w.At(0, "txstart", func() { go starter() })
+		w.At(0, "txop:", func() { go starter() })
 		w.Run(horizon)
 		if t != nil {
 			d := int64(0)
@@ -176,13 +203,14 @@ func (s *Sim) runTX(res *Result, horizon time.Duration) {
 
 func (s *Sim) runThreads(tx *TXPlan, f func(ch string, op TXOp) string) {
 	w := s.W
-	w.At(0, "txstart", func() {
+	gates := s.newGates(tx)
+	w.At(0, "txop:", func() {
 		for ti, ops := range tx.Threads {
 			ti, ops := ti, ops
 			go func() {
 				ch := fmt.Sprintf("txt:%d", ti)
 				for oi, op := range ops {
-					sleepUntil(s, op.AtNs)
+					gates.wait(ti, oi)
 					w.Log(ch, "invoke", nil, fmt.Sprintf("%s %d %d", op.Op, op.Key, op.Val), int64(oi))
 					r := f(ch, op)
 					w.Log(ch, "return", nil, r, int64(oi))
